@@ -469,7 +469,7 @@ let run_srv toks =
 let ends_with s p = String.length s >= String.length p && String.sub s (String.length s - String.length p) (String.length p) = p
 
 (* split the flat token list of an srv result into per-step records *)
-type steprec = { skind : char; sdg : n list; scont : string; sreply : string; sxfer : string }
+type steprec = { skind : char; sclient : int; sdg : n list; scont : string; sreply : string; sxfer : string }
 
 let srv_steps (steps : string) (impl : string) : steprec list * string =
   let toks = ref (words impl) in
@@ -482,7 +482,7 @@ let srv_steps (steps : string) (impl : string) : steprec list * string =
       let cont = match fields with _ :: x :: _ -> x | _ -> "-" in
       let r = next () in
       let x = if starts_with (peek ()) "dl=" || starts_with (peek ()) "ul=" || starts_with (peek ()) "rt=" then next () else "" in
-      Some { skind = step.[0]; sdg = dg; scont = cont; sreply = r; sxfer = x }
+      Some { skind = step.[0]; sclient = Char.code step.[1] - 48; sdg = dg; scont = cont; sreply = r; sxfer = x }
     end) (String.split_on_char ';' steps) in
   (recs, peek ())
 
@@ -717,7 +717,23 @@ let mon_srv prop case impl =
          | _ -> ()) recs
      | "C12" ->
        check_downloads ();
-       check_uploads ()
+       check_uploads ();
+       (* a well-formed non-request packet from an endpoint that owns no transfer (none started, or all of them over) is
+          answered with an ERROR from the listening port *)
+       List.iteri (fun i r ->
+         if r.skind = 'g' then
+           (match decoded r with
+            | Some (Ack _) | Some (Data _) | Some (Error _) | Some (Oack _) ->
+              let earlier = List.filteri (fun j _ -> j < i) recs in
+              let is_request q = (match decoded q with Some (Rrq _) | Some (Wrq _) -> true | _ -> false) in
+              let idle = List.for_all (fun q ->
+                  q.sclient <> r.sclient || not (is_request q) || List.length q.sdg > 516
+                  || q.sreply = "reply=none" || is_refusal (fst (reply_hex q.sreply))
+                  || (q.skind = 'q' && (ends_with q.sxfer "/done" || q.sxfer = "ul=acked"))) earlier
+                && List.for_all (fun q -> q.sclient <> r.sclient || List.length q.sdg <= 516) earlier in
+              if idle && not (starts_with (fst (reply_hex r.sreply)) "00050004" && snd (reply_hex r.sreply) = "L")
+              then bad "foreign-packet-to-the-listener-not-answered-with-error-4"
+            | _ -> ())) recs
      | "C01" ->
        (* download fidelity at the server's level: what a conformant client reassembles is the file *)
        check_downloads ()
@@ -1115,14 +1131,26 @@ let mon_cfg_dup case impl =
   | _ -> "skip"
 
 (* C17: the receive / send directories fall back to -d exactly when not given explicitly *)
-let mon_cfg_fallback (argv : n list list) (res : string) : string =
+(* C17: a numeric option whose value is no number makes the parse fail *)
+let mon_cfg_numeric (flags : string list) (argv : n list list) (res : string) : string =
+  let numeric v = v <> "" && (let ok = ref true in String.iteri (fun i c -> if not ((c >= '0' && c <= '9') || (i = 0 && c = '+')) then ok := false) v; !ok) && v <> "+" in
+  let rec bad = function
+    | a :: v :: r -> (List.mem (string_of_bytes a) flags && not (numeric (string_of_bytes v))) || bad (v :: r)
+    | _ -> false in
+  if starts_with res "ok" && bad argv then "fail:a-value-that-is-no-number-was-accepted-for-a-numeric-option" else "pass"
+
+let mon_cfg_fallback (cwd : string) (argv : n list list) (res : string) : string =
   let has names = List.exists (fun a -> List.mem (string_of_bytes a) names) argv in
+  let last names = List.fold_left (fun (acc, prev) a -> ((match prev with Some p when List.mem p names -> Some (string_of_bytes a) | _ -> acc), Some (string_of_bytes a))) (None, None) argv |> fst in
+  let shown v = if v = cwd && v <> "" then "CWD" else tok (bytes_of_string v) in
   if not (starts_with res "ok") then "pass" else begin
     let field k = List.find_map (fun t -> if starts_with t (k ^ "=") then Some (String.sub t (String.length k + 1) (String.length t - String.length k - 1)) else None) (words res) in
     match field "dir", field "rdir", field "sdir" with
     | Some d, Some r, Some sd ->
       if not (has ["-rd"; "--receive-directory"]) && r <> d then "fail:receive-directory-does-not-fall-back-to-the-directory"
       else if not (has ["-sd"; "--send-directory"]) && sd <> d then "fail:send-directory-does-not-fall-back-to-the-directory"
+      else if (match last ["-rd"; "--receive-directory"] with Some v -> shown v <> r | None -> false) then "fail:explicit-receive-directory-not-kept"
+      else if (match last ["-sd"; "--send-directory"] with Some v -> shown v <> sd | None -> false) then "fail:explicit-send-directory-not-kept"
       else "pass"
     | _ -> "pass"
   end
@@ -1342,24 +1370,32 @@ let run_mon (line : string) : string =
              | "bin" :: "xfer" :: _ -> if prop = "C14" then (if impl = "res=0 same=1" then "pass" else "fail:binaries-do-not-interoperate-byte-exactly") else "skip"
              | "conc" :: _ -> if prop = "C12" || prop = "C05" || prop = "C09" then mon_conc prop case impl else "skip"
              | "pair" :: _ -> if prop = "C04" || prop = "C14" || prop = "C16" then mon_pair prop case impl else "skip"
-             | ["cfgperm"; _; _; _; groups; _] when prop = "C17" ->
+             | ["cfgperm"; cwd; _; _; groups; _] when prop = "C17" ->
                (match mon_cfgperm impl with
                 | "pass" ->
                   (match mon_cfg_dup case impl with
                    | "pass" ->
                      let argv = if groups = "-" then [] else List.concat_map (fun g -> List.map untok (String.split_on_char ',' g)) (String.split_on_char '|' groups) in
-                     List.fold_left (fun acc r -> if acc <> "pass" then acc else mon_cfg_fallback argv (String.trim r)) "pass" (String.split_on_char '|' impl)
+                     List.fold_left (fun acc r -> if acc <> "pass" then acc else mon_cfg_fallback (string_of_bytes (untok cwd)) argv (String.trim r)) "pass" (String.split_on_char '|' impl)
                    | v -> v)
                 | v -> v)
              | "cfgperm" :: _ -> if prop = "C17" then (match mon_cfgperm impl with "pass" -> mon_cfg_dup case impl | v -> v)
                                  else if prop = "C16" then mon_cfg_dup case impl else "skip"
-             | ["cfg"; _; _; _; args] ->
+             | ["cfg"; cwd; _; _; args] ->
                if prop = "C17" then
-                 (match mon_cfg_dup case impl with
-                  | "pass" -> mon_cfg_fallback (if args = "-" then [] else List.map untok (String.split_on_char ',' args)) impl
+                 (let argv = if args = "-" then [] else List.map untok (String.split_on_char ',' args) in
+                  match mon_cfg_dup case impl with
+                  | "pass" -> (match mon_cfg_fallback (string_of_bytes (untok cwd)) argv impl with
+                      | "pass" -> mon_cfg_numeric ["-p"; "--port"; "--duplicate-packets"] argv impl
+                      | v -> v)
                   | v -> v)
                else if prop = "C16" then mon_cfg_dup case impl else "skip"
              | "ccfgperm" :: _ -> if prop = "C17" then mon_cfgperm impl else "skip"
+             | ["ccfg"; _; _; _; args] ->
+               if prop = "C17" then
+                 mon_cfg_numeric ["-p"; "--port"; "-b"; "--blocksize"; "-w"; "--windowsize"; "-t"; "--timeout"]
+                   (if args = "-" then [] else List.map untok (String.split_on_char ',' args)) impl
+               else "skip"
              | "win" :: _ -> if prop = "C18" then (if String.trim (run_win (words case)) = String.trim impl then "pass" else "fail:differs-from-the-verified-queue-specification") else "skip"
              | _ -> "skip"))
   | _ -> "fail:bad-monitor-line"
